@@ -17,7 +17,9 @@ Inductive action :=
 | ASample (count : N) (nv : list Fl)
 | AProbs
 | AAbs
-| ADump.
+| ADump
+| AView (mask : N)       (* get_vreg_by(mask): the view's full range, if the view exists *)
+| AViewAll.             (* get_vreg()[..] and num() *)
 
 Inductive rec :=
 | RDump (n : N) (buf : list (C Fl))
@@ -25,6 +27,8 @@ Inductive rec :=
 | RHist (cells : list N)
 | RProbs (p : list Fl)
 | RAbs (a : Fl)
+| RView (v : option N)
+| RViewAll (v : option N) (num : N)
 | RStop (why : N).       (* 1 = refused .c(), 2 = constructor panic, 3 = out of fuel *)
 
 Definition mk_raw (n : N) (raw : list (C Fl)) : qreg Fl :=
@@ -58,6 +62,12 @@ Fixpoint run_actions (r : qreg Fl) (acts : list action) : list rec :=
       | AProbs => RProbs (reg_probabilities Fops r) :: run_actions r rest
       | AAbs => RAbs (reg_absolute Fops r) :: run_actions r rest
       | ADump => RDump (q_num r) (q_psi r) :: run_actions r rest
+      | AView mask =>
+          RView (match get_vreg_by (q_mask r) mask with Some (Some v) => Some (vreg_all v) | _ => None end)
+          :: run_actions r rest
+      | AViewAll =>
+          RViewAll (match vreg_of_mask (q_mask r) with Some v => Some (vreg_all v) | None => None end) (q_num r)
+          :: run_actions r rest
       end
   end.
 
